@@ -55,6 +55,7 @@ PATH_FN = {"plain": f"{CLS}.chi2_molecules",
            "with_restraints": f"{CLS}._chi2_molecules_with_restrains",
            "only_restraints": f"{CLS}._chi2_molecules_only_restrains"}
 
+AMB_NOTE = "; the list repeats an identical pair and the value equals the reading 'restrained pairs as a set'"
 REL = 1e-9            # relative tolerance of every clause
 TIE_REL = 1e-7        # two candidates closer than this (relative) count as a tie: case skipped
 FORMATS = ("tuples", "lists", "ndarray_int64", "ndarray_int32", "tuple_of_tuples")
@@ -153,7 +154,8 @@ def oracle(fixed, mobile, restraints, scale2=None, guards=False):
         "value": base * _pow(1.1, k), "k": k, "path": path,
         # the other reading of a list that repeats an IDENTICAL pair ("restrained pairs" as a set): only used to
         # downgrade a mismatch on such lists to undecided, never as the expected value
-        "value_pairs_as_set": (s_restr_dedup + s_near) * _pow(1.1, k), "identical_pairs_repeated": len(set(pairs)) != len(pairs), "ties": ties, "choices": choices,
+        "value_pairs_as_set": (s_restr_dedup + s_near) * _pow(1.1, k), "identical_pairs_repeated": len(set(pairs)) != len(pairs),
+        "base_pairs_as_set": s_restr_dedup + s_near, "ties": ties, "choices": choices,
         "base": base, "s_restr": s_restr, "s_near": s_near, "n_pairs": len(pairs),
         "restrained_mobile": restrained_mobile, "restrained_fixed": restrained_fixed,
         "nearest": nearest,
@@ -173,7 +175,7 @@ def oracle(fixed, mobile, restraints, scale2=None, guards=False):
     }
 
 
-def tiebreak_values(orc, nm, cap=4096):
+def tiebreak_values(orc, nm, cap=4096, base_key="base"):
     """All reference values obtainable by resolving the ties in every admissible way."""
     n = 1
     for c in orc["choices"]:
@@ -188,7 +190,7 @@ def tiebreak_values(orc, nm, cap=4096):
     for c in orc["choices"]:
         every |= set(c)
     ks |= set(range(nm - len(every), max(ks) + 1))
-    return sorted(orc["base"] * _pow(1.1, k) for k in ks)
+    return sorted(orc[base_key] * _pow(1.1, k) for k in ks)
 
 
 # ---------------------------------------------------------------------------
@@ -315,18 +317,20 @@ def check_case(case, clauses=None):
             else:
                 facts["tiebreak_checked"] = True
                 if not any(_close(obs, v, floor) for v in tv):
-                    fail("some_tiebreak", obs, tv, "no admissible choice of nearest atoms gives the observed value")
+                    amb = o_e["identical_pairs_repeated"] and any(
+                        _close(obs, v, floor) for v in tiebreak_values(o_e, nm, base_key="base_pairs_as_set"))
+                    fail("some_tiebreak", obs, tv, "no admissible choice of nearest atoms gives the observed value" + (AMB_NOTE if amb else ""), amb)
         return fails, facts
     # ---- no ties on the evaluation configuration from here on
     if want("equals_reference"):
-        if not _close(obs, o_e["value"], floor):
-            amb = o_e["identical_pairs_repeated"] and _close(obs, o_e["value_pairs_as_set"], floor)
-            fail("equals_reference", obs, o_e["value"], "first call, evaluation configuration != construction configuration"
-                 + ("; the list repeats an identical pair and the value equals the reading 'restrained pairs as a set'" if amb else ""), amb)
-        elif not _close(obs_again, o_e["value"], floor):
-            fail("equals_reference", obs_again, o_e["value"], "third call (same evaluation configuration again, after a call on another one)")
-        elif not o_c["ties"] and not _close(obs_c, o_c["value"], floor):
-            fail("equals_reference", obs_c, o_c["value"], "second call, on the construction configuration")
+        for v, orc, what_ in ((obs, o_e, "first call, evaluation configuration != construction configuration"),
+                              (obs_again, o_e, "third call (same evaluation configuration again, after a call on another one)"),
+                              (obs_c, o_c, "second call, on the construction configuration")):
+            if orc["ties"] or _close(v, orc["value"], floor):
+                continue
+            amb = orc["identical_pairs_repeated"] and _close(v, orc["value_pairs_as_set"], floor)
+            fail("equals_reference", v, orc["value"], what_ + (AMB_NOTE if amb else ""), amb)
+            break
     if want("only_eval_config"):
         for name, mc2 in (("other construction configuration", case.get("mobile_construct2")), ("built on the evaluation configuration", Me)):
             if mc2 is None:
